@@ -3,7 +3,7 @@ from __future__ import annotations
 
 
 REQUEST_ACTIONS = {"drop_before_apply", "drop_after_apply", "lose_response", "reply_error",
-                   "delay", "reset_at_byte"}
+                   "delay", "reset_at_byte", "corrupt_once"}
 
 
 class FaultEngine:
